@@ -25,6 +25,7 @@ type FileShape struct {
 	Sfx   string
 	Tests []string
 	Fuzz  []string
+	Bench []string
 }
 
 type PkgShape struct {
@@ -42,7 +43,7 @@ type Shape struct {
 func DefaultShape() Shape {
 	return Shape{Pkgs: []PkgShape{
 		{Dir: "", Name: "vprog", Files: []FileShape{
-			{Name: "a_test.go", Sfx: "a", Tests: []string{"TestA", "TestAB", "TestA1", "TestA10"}},
+			{Name: "a_test.go", Sfx: "a", Tests: []string{"TestA", "TestAB", "TestA1", "TestA10"}, Bench: []string{"BenchmarkP", "BenchmarkQ", "BenchmarkQ2"}},
 			{Name: "b_test.go", Sfx: "b", Tests: []string{"TestB", "TestC", "Test10", "Test2"}, Fuzz: []string{"FuzzX"}},
 		}},
 		{Dir: "deep/er", Name: "er", Files: []FileShape{
@@ -92,6 +93,9 @@ func WriteProgram(root string, sh Shape) error {
 			var fn strings.Builder
 			for _, t := range f.Tests {
 				fmt.Fprintf(&fn, "func %s(t *testing.T) { run_%s(t) }\n\n", t, f.Sfx)
+			}
+			for _, b := range f.Bench {
+				fmt.Fprintf(&fn, "func %s(b *testing.B) { runB_%s(b) }\n\n", b, f.Sfx)
 			}
 			for _, z := range f.Fuzz {
 				fmt.Fprintf(&fn, "func %s(f *testing.F) {\n\tf.Add(\"seed\")\n\tf.Add(\"other\")\n\tf.Fuzz(func(t *testing.T, s string) { run_%s(t) })\n}\n\n", z, f.Sfx)
